@@ -1,26 +1,41 @@
 #!/usr/bin/env python3
-"""tools/try_mutant.py <patch.diff> <prop> [<prop>...] [--tier quick|thorough]
-Apply a seeded change to /repo, run the named checks, undo the change. Prints one line per check."""
+"""tools/try_mutant.py [--alt] <patch.diff> <prop> [<prop>...] [--tier quick|thorough]
+Apply a seeded change, run the named checks, undo the change. Prints one line per check.
+Default: applies to /repo itself (git -C /repo apply ... / git -C /repo checkout -- .).
+--alt: applies to the scratch worktree /tmp/altrepo (created on demand from /repo's HEAD) and runs
+the checks with VERIF_REPO=/tmp/altrepo, so that /repo and /verif/evidence stay untouched."""
 import subprocess, sys, os, time
 args = sys.argv[1:]
 tier = "quick"
+alt = False
+if "--alt" in args:
+    args.remove("--alt"); alt = True
 if "--tier" in args:
     i = args.index("--tier"); tier = args[i + 1]; del args[i:i + 2]
 patch, props = args[0], args[1:]
-st = subprocess.run(["git", "-C", "/repo", "status", "--porcelain"], capture_output=True, text=True).stdout.strip()
+repo = "/repo"
+env = dict(os.environ)
+if alt:
+    repo = "/tmp/altrepo"
+    if not os.path.isdir(repo):
+        subprocess.run(["git", "-C", "/repo", "worktree", "add", "--detach", repo, "HEAD", "-q"], check=True)
+    head = subprocess.run(["git", "-C", "/repo", "rev-parse", "HEAD"], capture_output=True, text=True).stdout.strip()
+    subprocess.run(["git", "-C", repo, "checkout", "-q", "--detach", head], check=True)
+    env["VERIF_REPO"] = repo
+st = subprocess.run(["git", "-C", repo, "status", "--porcelain"], capture_output=True, text=True).stdout.strip()
 if st:
-    print("refusing: /repo working tree not clean:\n" + st); sys.exit(2)
-r = subprocess.run(["git", "-C", "/repo", "apply", "--whitespace=nowarn", patch], capture_output=True, text=True)
+    print("refusing: %s working tree not clean:\n%s" % (repo, st)); sys.exit(2)
+r = subprocess.run(["git", "-C", repo, "apply", "--whitespace=nowarn", patch], capture_output=True, text=True)
 if r.returncode != 0:
     print("patch does not apply: " + r.stderr); sys.exit(2)
 try:
     for p in props:
         t0 = time.time()
-        c = subprocess.run(["./check", p, tier], cwd="/verif", capture_output=True, text=True)
+        c = subprocess.run(["./check", p, tier], cwd="/verif", capture_output=True, text=True, env=env)
         sigs = [l.strip() for l in c.stdout.splitlines() if l.strip().startswith("signature:")]
         inc = [l for l in c.stdout.splitlines() if l.startswith("INCONCLUSIVE")]
-        print("%s rc=%d %.0fs violations=%d %s %s" % (p, c.returncode, time.time() - t0, len(sigs), "; ".join(s[11:90] for s in sigs[:3]), ("INC: " + inc[0][:160]) if inc else ""))
+        print("%s rc=%d %.0fs violations=%d %s %s" % (p, c.returncode, time.time() - t0, len(sigs), "; ".join(s[11:100] for s in sigs[:3]), ("INC: " + inc[0][:200]) if inc else ""))
         sys.stdout.flush()
 finally:
-    subprocess.run(["git", "-C", "/repo", "checkout", "--", "."])
-    subprocess.run(["git", "-C", "/repo", "clean", "-fdq", "src", "tests"])
+    subprocess.run(["git", "-C", repo, "checkout", "--", "."])
+    subprocess.run(["git", "-C", repo, "clean", "-fdq", "src", "tests"])
